@@ -718,7 +718,8 @@ class ModuleVistor(NodeVisitor):
                 # be described as "too complex".
                 raise ValueError()
             docstring: object = ast.literal_eval(expr)
-        except ValueError:
+        except (ValueError, TypeError):
+            # TypeError: a literal that cannot be built, like a dict with an unhashable key or the negation of a string.
             warn("Unable to figure out value for __doc__ assignment, "
                  "maybe too complex")
             return
